@@ -9,6 +9,7 @@ used.  `loop_item(q, next_call)` turns the iterator expression feeding a loop's 
     enumerate(it)                                ->  (i, item(it))
     zip(x, y)                                    ->  (item(x), item(y))
     copied / cloned (it)                         ->  item(it)
+    take(it, k)                                  ->  item(it)     (bound ("take", k) recorded: the caller judges coverage)
 
 with one shared position variable `i = ("var", "i")` (all constituents advance in lock step).  Adapters that skip,
 restrict or reorder elements (take, skip, filter, rev, step_by, chain, ...) are NOT interpreted: the function returns
@@ -59,7 +60,7 @@ def sym_item(e, bounds=None):
     n, a = e[4], e[2]
     if n in ITER_SRC and len(a) == 1:
         x = a[0]
-        if is_range(x) or (x[0] == "call" and x[4] in ITER_SRC + ("enumerate", "zip", "copied", "cloned")):
+        if is_range(x) or (x[0] == "call" and x[4] in ITER_SRC + ("enumerate", "zip", "copied", "cloned", "take")):
             return sym_item(x, bounds)          # IntoIterator of an iterator is the identity
         bounds.append(("coll", x))
         return ("index", x, I)
@@ -69,12 +70,18 @@ def sym_item(e, bounds=None):
     if n == "zip" and len(a) == 2:
         s0 = sym_item(a[0], bounds)
         y = a[1]
-        if not (is_range(y) or (y[0] == "call" and y[4] in ITER_SRC + ("enumerate", "zip", "copied", "cloned"))):
+        if not (is_range(y) or (y[0] == "call" and y[4] in ITER_SRC + ("enumerate", "zip", "copied", "cloned", "take"))):
             y = ("call", "", (y,), None, "into_iter")
         s1 = sym_item(y, bounds)
         return None if s0 is None or s1 is None else ("agg", "tuple", "", (s0, s1), ())
     if n in ("copied", "cloned") and len(a) == 1:
         return sym_item(a[0], bounds)
+    if n == "take" and len(a) == 2:
+        # the first k elements, still in order and in lock step: the caller must judge ("take", k) for coverage
+        s = sym_item(a[0], bounds)
+        if s is not None:
+            bounds.append(("take", a[1]))
+        return s
     return None
 
 
